@@ -167,6 +167,9 @@ func (n *simNet) pumpIn(c *simConn, d *simDir) {
 				break
 			}
 			<-d.room
+			if c.dead {
+				return // (not left behind holding the connection when the run is over)
+			}
 		}
 		k, err := d.in.Read(buf)
 		d.mu.Lock()
@@ -209,6 +212,10 @@ func (c *simConn) kill() {
 	for _, d := range []*simDir{c.c2s, c.s2c} {
 		select {
 		case d.fwd <- nil:
+		default:
+		}
+		select {
+		case d.room <- struct{}{}:
 		default:
 		}
 	}
